@@ -440,8 +440,10 @@ func (w *IngressWorld) IngressStep(rs *ReqSpec) {
 		}
 		nrec.accepted[signedTS] = true
 	}
-	if st == 202 || st == 503 {
+	if st == 202 || (st == 503 && reason == "") {
 		// feed the queue model: 202 = one message per target; 503 = a prefix
+		// (a 503 the reference explains otherwise - the forward-auth service
+		// failed - never reached the queue)
 		tg := r.targets()
 		items, _ := w.Listing()
 		newCount := 0
